@@ -280,7 +280,15 @@ def toDot (st : St) (π : List Nat) : String :=
     s!"    {k}" ++ String.join (ts.map fun v => s!"|    {k} -> {v}") ++ "|")
   "digraph {|" ++ body ++ "}"
 
+/-- table 3: callbacks with a state of their own - the i-th invocation answers `i`; one invocation per statement, in order -/
+def toDotAttrCounting (st : St) (π : List Nat) : String :=
+  let ns := String.join (π.zipIdx.map fun (k, i) => s!"\\t{k} " ++ fmtAttr [("i", toString (i + 1))] ++ "|")
+  let es := String.join ((dotEdges (iterAdj st) π).zipIdx.map fun ((u, v, _), j) =>
+    s!"\\t{u} -> {v} " ++ fmtAttr [("j", toString (j + 1))] ++ "|")
+  "digraph {|" ++ ns ++ es ++ "}"
+
 def toDotAttr (st : St) (t : Nat) (π : List Nat) : String :=
+  if t == 3 then toDotAttrCounting st π else
   let g := match attrG t with
     | some l => String.join (l.map fun (k, v) => s!"\\t{k}=\"{v}\"|")
     | none => ""
@@ -434,6 +442,8 @@ def contReq (st : St) (toks : List String) : St × String :=
   | ["g.deraw", _i, _fmt, _hex] => (st, "any")
   -- round trips over a key type the model does not have (Display text and hashes collide): judged by the harness
   | ["g.rtlossy", _i, _seed] => (st, "robust")
+  | ["g.rtcell", _i, _seed] => (st, "robust")
+  | ["g.denest", _i, _seed] => (st, "robust")
   -- the container with text keys: a document that could be typed arrives with its keys renamed injectively to
   -- numbers (`@abs=`) and goes through the abstract deserialiser (generic in the key type); the world is not replaced
   | ["g.destr", _i, _fmt, _hex] =>
